@@ -758,7 +758,7 @@ func (n *MapLiteralNode) String() string {
 		if !first {
 			expr += ", "
 		}
-		expr += fmt.Sprintf("'%s': %s", k, n.Items[k].String())
+		expr += quoteString(k) + ": " + n.Items[k].String()
 		first = false
 	}
 	return expr + "]"
@@ -770,6 +770,33 @@ func (n *MapLiteralNode) Children() []Node {
 		nodes = append(nodes, n.Items[k])
 	}
 	return nodes
+}
+
+// quoteString prints s as a Soy string literal: in single quotes, with the
+// quote, the backslash and the control characters that have an escape sequence
+// written as such.
+func quoteString(s string) string {
+	var q = make([]rune, 0, len(s)+2)
+	q = append(q, '\'')
+	for _, ch := range s {
+		switch ch {
+		case '\\', '\'':
+			q = append(q, '\\', ch)
+		case '\n':
+			q = append(q, '\\', 'n')
+		case '\r':
+			q = append(q, '\\', 'r')
+		case '\t':
+			q = append(q, '\\', 't')
+		case '\b':
+			q = append(q, '\\', 'b')
+		case '\f':
+			q = append(q, '\\', 'f')
+		default:
+			q = append(q, ch)
+		}
+	}
+	return string(append(q, '\''))
 }
 
 // sortedKeys returns the keys of the literal in sorted order, so that printing
